@@ -51,7 +51,7 @@ theorem core_init (F base : Nat) : TCore F base (init base (4096 * 2 ^ F)) := by
 /-! ## steps -/
 
 theorem core_allocMulti {F base : Nat} {s s' : State} {n : Nat} {pages : List Nat} (h : TCore F base s) (hn : 1 ≤ n)
-    (ha : allocMulti s n = .ok (pages, s')) :
+    (ha : allocMultiPos s n = .ok (pages, s')) :
     TCore F base s' ∧ (∀ q, Tracked s' q ↔ (q ∈ pages ∨ Tracked s q)) ∧ pages.Nodup ∧ ∀ q ∈ pages, ¬ Tracked s q := by
   obtain ⟨f', b', -⟩ := finv_allocMulti h.f ha
   obtain ⟨N', E', K', C', T', P', Q'⟩ := trip_allocMulti h.f h.n h.e h.keys h.cnt ha
@@ -61,6 +61,7 @@ theorem core_allocMulti {F base : Nat} {s s' : State} {n : Nat} {pages : List Na
 theorem core_popOne {F base : Nat} {s s' : State} {p : Nat} (h : TCore F base s) (hp : popOne s = .ok (p, s')) :
     TCore F base s' ∧ (∀ q, Tracked s' q ↔ (q = p ∨ Tracked s q)) ∧ ¬ Tracked s p := by
   unfold popOne at hp
+  rw [allocMulti_pos s (by decide)] at hp
   split at hp
   · cases hp
   · split at hp
@@ -132,6 +133,7 @@ theorem core_amOp {F base : Nat} {s s' : State} {ps : List Nat} {n : Nat} (h : T
     (hp : amOp s n = .ok (ps, s')) :
     TCore F base s' ∧ (∀ q, Tracked s' q ↔ (q ∈ ps ∨ Tracked s q)) ∧ ps.Nodup ∧ ∀ q ∈ ps, ¬ Tracked s q := by
   unfold amOp at hp
+  rw [allocMulti_pos s (by omega)] at hp
   split at hp
   · cases hp
   · split at hp
@@ -183,27 +185,26 @@ theorem core_addAll {F base : Nat} : ∀ (ps : List Nat) (s s' : State), TCore F
 
 /-! ## histories -/
 
-/-- every history of requests for at least one page (legal or not) keeps the bundle, and the pages with a
+/-- every history (legal or not; requests for no page included: they change nothing) keeps the bundle, and the pages with a
 `blockTracking` entry are exactly the live pages, each once -/
-theorem core_runLive {F base : Nat} : ∀ (ops : List Op) (s : State) (live : List Nat), (∀ op ∈ ops, AmPos op) →
+theorem core_runLive {F base : Nat} : ∀ (ops : List Op) (s : State) (live : List Nat),
     TCore F base s → (∀ p, Tracked s p ↔ p ∈ live) → live.Nodup →
     TCore F base (runLive s live ops).st ∧ (∀ p, Tracked (runLive s live ops).st p ↔ p ∈ (runLive s live ops).live) ∧
       (runLive s live ops).live.Nodup := by
   intro ops
   induction ops with
   | nil =>
-    intro s live _ h hl hn
+    intro s live h hl hn
     exact ⟨h, hl, hn⟩
   | cons op ops ih =>
-    intro s live hpos h hl hn
-    have hpos' : ∀ op ∈ ops, AmPos op := fun o ho => hpos o (List.mem_cons_of_mem _ ho)
+    intro s live h hl hn
     have halloc : ∀ (out : List Nat) (s1 : State), TCore F base s1 →
         (∀ q, Tracked s1 q ↔ (q ∈ out ∨ Tracked s q)) → out.Nodup → (∀ q ∈ out, ¬ Tracked s q) →
         TCore F base (runLive s1 (live ++ out) ops).st ∧
         (∀ p, Tracked (runLive s1 (live ++ out) ops).st p ↔ p ∈ (runLive s1 (live ++ out) ops).live) ∧
           (runLive s1 (live ++ out) ops).live.Nodup := by
       intro out s1 c1 T1 P1 Q1
-      apply ih s1 _ hpos' c1
+      apply ih s1 _ c1
       · intro p
         rw [T1 p, hl p, List.mem_append]
         exact Or.comm
@@ -227,7 +228,7 @@ theorem core_runLive {F base : Nat} : ∀ (ops : List Op) (s : State) (live : Li
             injection hstep with _ e
             subst e
             obtain ⟨c1, T1⟩ := core_addAll ps s s2 h hadd
-            apply ih s2 _ hpos' c1
+            apply ih s2 _ c1
             · intro p
               rw [T1 p, hl p, List.mem_filter]
               simp
@@ -247,9 +248,13 @@ theorem core_runLive {F base : Nat} : ∀ (ops : List Op) (s : State) (live : Li
       · exact ⟨h, hl, hn⟩
       · rename_i out s1 hstep
         simp only [step] at hstep
-        have hn1 : 1 ≤ n := hpos (.am n) List.mem_cons_self
-        obtain ⟨c1, T1, P1, Q1⟩ := core_amOp h hn1 hstep
-        exact halloc out s1 c1 T1 P1 Q1
+        by_cases hn0 : n = 0
+        · -- `allocateMultiplePages(0)`: no page, no block, no tracker — the state is unchanged
+          subst hn0
+          obtain ⟨rfl, rfl⟩ := amOp_zero_ok hstep
+          exact halloc [] _ h (fun q => by simp) List.nodup_nil (fun q hq => by cases hq)
+        · obtain ⟨c1, T1, P1, Q1⟩ := core_amOp h (by omega) hstep
+          exact halloc out s1 c1 T1 P1 Q1
 
 /-! ## consequences -/
 
